@@ -86,7 +86,9 @@ DoRequestRandom(s, e) ==
       base == [id |-> ReqId(who, s.h), consumer |-> who, reqH |-> s.h, oracle |-> e.oracle,
                ctx |-> "", cap |-> 0, txh |-> e.txh]
   IN
-  IF e.n < 0 \/ e.cap < 0 THEN FailW(s, "invalid")
+  \* e.n < 0 encodes a block interval of 2^64 + e.n: ValidateBasic admits every
+  \* uint64 and int64(interval) wraps, so the due height is exactly s.h + e.n
+  IF e.cap < 0 THEN FailW(s, "invalid")
   ELSE IF ~e.oracle THEN Done(Enqueue(s, s.h + e.n, base))
   ELSE IF DOMAIN s.bind = {} THEN FailW(s, "no_bindings")
   ELSE IF s.bal[who][D] < e.cap THEN FailW(s, "insufficient_fee")
@@ -248,8 +250,28 @@ DoEndBlock(s, e) ==
       s2 == NewAll(s1, {c \in DOMAIN s1.ctx : s1.ctx[c].newAt = s.h})
   IN Done([s2 EXCEPT !.h = s.h + 1, !.inb = FALSE])
 
+(***************************************************************************)
+(* Restart from a zero-height export (genesis.go PrepForZeroHeightGenesis,  *)
+(* ExportGenesis, InitGenesis) taken at the committed height H = s.h - 1,   *)
+(* followed by the first (empty) block of the new chain: every queue entry  *)
+(* moves from its height q to q - H + 1; only the queue is exported —       *)
+(* generated numbers and oracle requests waiting for their seed are not.    *)
+(* Modelled for states without service contexts (no oracle request in       *)
+(* flight).                                                                 *)
+(***************************************************************************)
+ZeroHeightOK(s) ==
+  /\ ~s.inb /\ DOMAIN s.ctx = {} /\ DOMAIN s.opend = {}
+  /\ \A q \in s.pending : ~q.oracle /\ q.due >= s.h - 1
+
+DoZeroHeight(s, e) ==
+  IF ~ZeroHeightOK(s) THEN FailW(s, "not_modelled")
+  ELSE LET H == s.h - 1 IN
+       Done([s EXCEPT !.h = 2, !.nctx = 0, !.results = EmptyF,
+                      !.pending = {[q EXCEPT !.due = q.due - H + 1] : q \in s.pending}])
+
 Apply(s, e) ==
   CASE e.name = "RequestRandom" -> DoRequestRandom(s, e)
+    [] e.name = "ZeroHeight"    -> DoZeroHeight(s, e)
     [] e.name = "Respond"       -> DoRespond(s, e)
     [] e.name = "BeginBlock"    -> DoBeginBlock(s, e)
     [] e.name = "EndBlock"      -> DoEndBlock(s, e)
@@ -264,25 +286,54 @@ Apply(s, e) ==
 (*            due height, oracle flag and context                          *)
 (*   ful[id]  how often a result for id was written or changed             *)
 (***************************************************************************)
-GhostInit == [req |-> EmptyF, ful |-> EmptyF]
+(*   lost     accepted requests whose queue entry a later request of the same   *)
+(*            consumer, block and due height overwrote; lostO: their contexts *)
+GhostInit == [req |-> EmptyF, ful |-> EmptyF, lost |-> 0, lostO |-> {}, zh |-> 0]
+
+(* a trace may start (and a restart continues) with requests already queued *)
+GhostOf(s) ==
+  LET ids == {q.id : q \in s.pending} IN
+  [req |-> [id \in ids |->
+              LET qs == {q \in s.pending : q.id = id}
+                  q1 == CHOOSE q \in qs : TRUE
+              IN [cnt |-> Cardinality(qs), due |-> q1.due, oracle |-> q1.oracle, ctx |-> q1.ctx, wrap |-> FALSE]],
+   ful |-> EmptyF, lost |-> 0, lostO |-> {}, zh |-> 0]
 
 Changed(s, t) ==
   {id \in DOMAIN t.results : id \notin DOMAIN s.results \/ t.results[id] # s.results[id]}
 
+(* queue entries (of the pre-state) that an accepted request overwrites *)
+Replaced(s, e) ==
+  IF e.name = "RequestRandom" /\ e.ok
+  THEN {q \in s.pending : q.id = ReqId(e.who, s.h) /\ q.due = s.h + e.n}
+  ELSE {}
+
 GhostStep(g, s, e, t) ==
+  IF e.name = "ZeroHeight" /\ e.ok THEN [GhostOf(t) EXCEPT !.zh = g.zh + 1]
+  ELSE
   LET id == ReqId(e.who, s.h)
       mine == {q \in t.pending : q.id = id /\ q.due = s.h + e.n}
       req2 == IF e.name = "RequestRandom" /\ e.ok
               THEN Put(g.req, id,
-                     IF id \in DOMAIN g.req THEN [g.req[id] EXCEPT !.cnt = @ + 1]
+                     IF id \in DOMAIN g.req
+                     THEN [g.req[id] EXCEPT !.cnt = @ + 1, !.wrap = @ \/ e.n < 0]
                      ELSE [cnt |-> 1, due |-> s.h + e.n, oracle |-> e.oracle,
-                           ctx |-> IF mine # {} THEN (CHOOSE q \in mine : TRUE).ctx ELSE ""])
+                           ctx |-> IF mine # {} THEN (CHOOSE q \in mine : TRUE).ctx ELSE "",
+                           wrap |-> e.n < 0])
               ELSE g.req
       ch == Changed(s, t)
+      rep == Replaced(s, e)
   IN [req |-> req2,
-      ful |-> [i \in DOMAIN g.ful \cup ch |-> Get(g.ful, i, 0) + (IF i \in ch THEN 1 ELSE 0)]]
+      ful |-> [i \in DOMAIN g.ful \cup ch |-> Get(g.ful, i, 0) + (IF i \in ch THEN 1 ELSE 0)],
+      lost |-> g.lost + Cardinality(rep),
+      lostO |-> g.lostO \cup {q.ctx : q \in {x \in rep : x.oracle}},
+      zh |-> g.zh]
 
-Single(g, id) == id \in DOMAIN g.req /\ g.req[id].cnt = 1
+(* the requests the property speaks about: the only one with their id (the id
+   scheme identifies a request by requester and height), with an interval that
+   does not wrap *)
+Single(g, id) == id \in DOMAIN g.req /\ g.req[id].cnt = 1 /\ ~g.req[id].wrap
+Wrapped(g, id) == id \in DOMAIN g.req /\ g.req[id].wrap
 
 (* BeginBlock(due + 1) has run *)
 BeginRan(t, due) == t.h > due + 1 \/ (t.h = due + 1 /\ t.inb)
@@ -294,7 +345,7 @@ BeginRan(t, due) == t.h > due + 1 \/ (t.h = due + 1 /\ t.inb)
    exactly one entry — until the begin-block of h+n+1, which removes it and,
    for block-hash requests, stores the result under height h+n *)
 C18_Due(t, g) ==
-  \A id \in DOMAIN g.req : g.req[id].cnt = 1 =>
+  \A id \in DOMAIN g.req : Single(g, id) =>
     LET r == g.req[id]
         entries == {q \in t.pending : q.id = id}
     IN IF ~BeginRan(t, r.due)
@@ -309,10 +360,10 @@ C18_Due(t, g) ==
    response for their context arrives — and then at once; a failing, invalid or
    missing response leaves no result *)
 C18_Once(s, e, t, g) ==
-  /\ \A id \in DOMAIN g.req : g.req[id].cnt = 1 => Get(g.ful, id, 0) <= 1
+  /\ \A id \in DOMAIN g.req : Single(g, id) => Get(g.ful, id, 0) <= 1
   /\ \A id \in Changed(s, t) :
        /\ id \in DOMAIN g.req
-       /\ g.req[id].cnt = 1 =>
+       /\ Single(g, id) =>
             IF g.req[id].oracle
             THEN e.name = "Respond" /\ e.ok /\ e.kind = "seed" /\ e.ctx = g.req[id].ctx
             ELSE e.name = "BeginBlock" /\ s.h = g.req[id].due + 1
@@ -331,38 +382,104 @@ C18_Pure(s, e, t) ==
 (* C18 stable: a stored result never changes (results are read back by request
    id through the keeper's getter in every state) *)
 C18_Stable(s, t, g) ==
-  \A id \in DOMAIN s.results : Single(g, id) =>
-    id \in DOMAIN t.results /\ t.results[id] = s.results[id]
+  \* (a zero-height restart — the only step that lowers the height — is C12's
+  \* subject: the export does not carry generated numbers)
+  t.h >= s.h =>
+    \A id \in DOMAIN s.results : Single(g, id) =>
+      id \in DOMAIN t.results /\ t.results[id] = s.results[id]
 
 (* C13 (random): queue entries refer to awaiting requests at their due height *)
 C13_QueueSound_Random(t, g) ==
   \A q \in t.pending :
     /\ q.id \in DOMAIN g.req
     /\ Single(g, q.id) => (q.due = g.req[q.id].due /\ q.id \notin DOMAIN t.results)
-    /\ q.due >= t.h - 1
-    /\ t.inb => q.due >= t.h
+    /\ (~Wrapped(g, q.id)) => (q.due >= t.h - 1 /\ (t.inb => q.due >= t.h))
 
 (* every awaiting request has exactly one entry, a processed one none *)
 C13_QueueComplete_Random(t, g) ==
-  \A id \in DOMAIN g.req : g.req[id].cnt = 1 =>
+  \A id \in DOMAIN g.req : Single(g, id) =>
     Cardinality({q \in t.pending : q.id = id}) = (IF BeginRan(t, g.req[id].due) THEN 0 ELSE 1)
 
 (* entries leave the queue only in the begin-block after their height *)
 C13_OnceOnTime_Random(s, e, t, g) ==
   LET key(q) == <<q.due, q.id>>
       gone == {key(q) : q \in s.pending} \ {key(q) : q \in t.pending}
-  IN /\ gone # {} => e.name = "BeginBlock"
-     /\ \A k \in gone : k[1] = s.h - 1
-     /\ (e.name = "BeginBlock" /\ ~e.halt) => \A q \in t.pending : q.due >= s.h
+  IN /\ gone # {} => e.name \in {"BeginBlock", "ZeroHeight"}
+     /\ e.name = "BeginBlock" => \A k \in gone : k[1] = s.h - 1
+     /\ (e.name = "BeginBlock" /\ ~e.halt) => \A q \in t.pending : Wrapped(g, q.id) \/ q.due >= s.h
 
 C13_NoHalt(e) == ~e.halt
 
+-----------------------------------------------------------------------------
+(* Diagnostic clauses (beyond C18's text; reported, never a verdict) *)
+
+(* every number is stored under the height before the block that generates it *)
+X18_ResultHeight(s, e, t) ==
+  e.name # "ZeroHeight" => \A id \in Changed(s, t) : t.results[id].h = s.h - 1
+
+(* requests of one consumer in one block share an id.  With the same due
+   height the later request takes the earlier one's queue entry: the queue does
+   not grow and the earlier request is lost (never fulfilled, no error) *)
+X18_DupReplace(s, e, t) ==
+  Replaced(s, e) # {} =>
+    /\ Cardinality(t.pending) = Cardinality(s.pending)
+    /\ \A q \in t.pending : (q.id = ReqId(e.who, s.h) /\ q.due = s.h + e.n) =>
+         (q.txh = e.txh /\ q.oracle = e.oracle)
+
+(* ... and if the lost request was oracle-seeded, its service context stays
+   behind, paused, never started and unreferenced, for good *)
+X18_DupOrphan(t, g) ==
+  \A c \in g.lostO :
+    /\ c \in DOMAIN t.ctx /\ t.ctx[c].state = "paused" /\ t.ctx[c].bcount = 0
+    /\ c \notin DOMAIN t.opend /\ \A q \in t.pending : q.ctx # c
+
+(* with different due heights both entries are fulfilled and each fulfilment
+   rewrites the one result stored under the shared id *)
+X18_DupResult(s, e, t, g) ==
+  \A id \in Changed(s, t) :
+    (id \in DOMAIN g.req /\ g.req[id].cnt > 1 /\ e.name = "BeginBlock") =>
+      \E q \in s.pending : q.id = id /\ q.due = s.h - 1 /\ ~q.oracle
+
+(* a provider answering after the batch expired (or twice, or a request that
+   never existed) is refused and changes nothing *)
+X18_LateAnswer(s, e, t) ==
+  (e.name = "Respond" /\ (e.ctx \notin DOMAIN s.ctx \/ e.who \notin DOMAIN s.ctx[e.ctx].reqs
+                          \/ ~s.ctx[e.ctx].reqs[e.who].act)) =>
+    (~e.ok /\ t = s)
+
+(* block intervals of 2^63 and more wrap: the entry is queued under a height
+   that has passed, is never processed, never leaves, and no number is ever
+   stored for it; nothing else is ever stale *)
+Stale(q, t) == q.due < t.h - 1 \/ (t.inb /\ q.due < t.h)
+X18_WrapStale(s, e, t, g) ==
+  /\ \A q \in t.pending : Stale(q, t) => Wrapped(g, q.id)
+  /\ e.name # "ZeroHeight" =>
+       \A q \in s.pending : (Wrapped(g, q.id) /\ Stale(q, s)) =>
+         \E r \in t.pending : r.due = q.due /\ r.id = q.id
+  /\ \A id \in Changed(s, t) : (Wrapped(g, id) /\ g.req[id].cnt = 1) => FALSE
+
+(* a zero-height restart rebuilds the queue with every entry moved from q to
+   q - H + 1 (H the export height).  The state after the event is the one after
+   the new chain's first block (height 1, which finds nothing to do): from there
+   every pending request is as many blocks away from its fulfilment as before —
+   i.e. the restart costs every pending request exactly that first block *)
+X18_ZeroHeightQueue(s, e, t) ==
+  (e.name = "ZeroHeight" /\ e.ok) =>
+    /\ t.h = 2 /\ ~t.inb
+    /\ Cardinality(t.pending) = Cardinality(s.pending)
+    /\ \A q \in s.pending :
+         \E r \in t.pending : r.id = q.id /\ r.reqH = q.reqH /\ r.consumer = q.consumer
+                              /\ r.due - t.h = q.due - s.h
+
 Rejected_NoEffect(s, e, t) ==
-  (~e.ok /\ e.name \notin {"BeginBlock", "EndBlock"}) => t = s
+  (~e.ok /\ e.name \notin {"BeginBlock", "EndBlock", "ZeroHeight"}) => t = s
 
 -----------------------------------------------------------------------------
 (* Model-checking universe *)
-CONSTANTS MaxH, MaxReq, Intervals, Caps, Bound, Price, Funds, Timeout, TaxNum, TaxDen, Kinds
+CONSTANTS MaxH, MaxReq, Intervals, Caps, Bound, Price, Funds, Timeout, TaxNum, TaxDen, Kinds,
+          MaxZH      \* zero-height restarts per behaviour (0: none)
+
+IntervalsWrapDef == {-2, -1, 0, 1}
 
 Accts == Users \cup Provs \cup {SVCREQ, SVCDEP, SVCTAX}
 
@@ -408,8 +525,29 @@ Respond ==
   /\ \E who \in Provs, c \in DOMAIN st.ctx, kind \in Kinds :
        Step(E("Respond", who, 0, FALSE, 0, c, kind, "", 0))
 
-Next == BeginBlock \/ EndBlock \/ RequestPlain \/ RequestOracle \/ Respond
+ZeroHeight ==
+  /\ MaxZH > 0 /\ ZeroHeightOK(st) /\ st.h > 3
+  /\ gh.zh < MaxZH
+  /\ Step(E("ZeroHeight", "", 0, FALSE, 0, "", "", "", 0))
+
+Next == BeginBlock \/ EndBlock \/ RequestPlain \/ RequestOracle \/ Respond \/ ZeroHeight
 Spec == Init /\ [][Next]_vars
+
+(***************************************************************************)
+(* Exploratory (not in a tier): under weak fairness of the block handlers   *)
+(* every pending block-hash request is eventually fulfilled.  The model's   *)
+(* height is bounded, so requests are only made while their due block still *)
+(* fits (MaxH); checked by MC_Random_live.cfg without a VIEW.               *)
+(***************************************************************************)
+RequestPlainLive ==
+  /\ st.inb /\ NReq < MaxReq
+  /\ \E who \in Users, n \in Intervals :
+       st.h + n + 1 <= MaxH /\ Step(E("RequestRandom", who, n, FALSE, 0, "", "", "", 0))
+LiveNext == BeginBlock \/ EndBlock \/ RequestPlainLive
+LiveSpec == Init /\ [][LiveNext]_vars /\ WF_vars(BeginBlock) /\ WF_vars(EndBlock)
+Live_Fulfilled ==
+  \A u \in Users : \A hh \in 3..MaxH :
+    (\E q \in st.pending : q.id = ReqId(u, hh) /\ ~q.oracle) ~> (ReqId(u, hh) \in DOMAIN st.results)
 
 (* Generator *)
 Rejects(h) == Cardinality({i \in DOMAIN h : ~h[i].ok})
@@ -429,6 +567,13 @@ Act_C18_Once == [][C18_Once(st, ev', st', gh')]_vars
 Act_C18_Stable == [][C18_Stable(st, st', gh')]_vars
 Act_C13_OnceOnTime == [][C13_OnceOnTime_Random(st, ev', st', gh')]_vars
 Act_Rejected_NoEffect == [][Rejected_NoEffect(st, ev', st')]_vars
+Act_X18_ResultHeight == [][X18_ResultHeight(st, ev', st')]_vars
+Act_X18_DupReplace == [][X18_DupReplace(st, ev', st')]_vars
+Act_X18_DupOrphan == [][X18_DupOrphan(st', gh')]_vars
+Act_X18_DupResult == [][X18_DupResult(st, ev', st', gh')]_vars
+Act_X18_LateAnswer == [][X18_LateAnswer(st, ev', st')]_vars
+Act_X18_WrapStale == [][X18_WrapStale(st, ev', st', gh')]_vars
+Act_X18_ZeroHeightQueue == [][X18_ZeroHeightQueue(st, ev', st')]_vars
 
 (* design-level sanity of the service slice: money is conserved *)
 Inv_Conserved == TotalOf(st.bal, D) = Cardinality(Users) * Funds
